@@ -252,7 +252,7 @@ ALLOWED_AXIOMS = {
 # ---------------------------------------------------------------- extracted model
 def model_exe():
     """extract Exec.v to OCaml and build pnc_model (cached on the hash of the model sources)"""
-    srcs = ['Gen_consts.v', 'Base.v', 'Header.v', 'Access.v', 'Data.v', 'HeaderSpec.v', 'Exec.v', 'Extract.v']
+    srcs = ['Gen_consts.v', 'Base.v', 'Header.v', 'Access.v', 'Data.v', 'Disk.v', 'Move.v', 'Fill.v', 'HeaderSpec.v', 'Exec.v', 'Extract.v']
     h = hashlib.sha1()
     for s in srcs:
         h.update(open(os.path.join(COQ, s), 'rb').read())
